@@ -238,6 +238,63 @@ fn diff_path(a: &Sexp, b: &Sexp, path: &mut Vec<String>) -> Option<(String, Opti
     }
 }
 
+fn is_dir_list(s: &Sexp) -> bool {
+    matches!(s, Sexp::List(v) if v.iter().all(|x| x.head() == Some("dir")))
+}
+
+/// class of the first difference that concerns a LIST of directive applications as such (same applications in another
+/// order / an application lost or added), with the kind of node that carries the list; None when the lists hold the same
+/// directive names in the same order (the difference is then inside an argument value, or elsewhere)
+fn dir_list_diff(a: &Sexp, b: &Sexp, owner: &mut Vec<String>) -> Option<(String, String)> {
+    if a == b {
+        return None;
+    }
+    let (Sexp::List(x), Sexp::List(y)) = (a, b) else { return None };
+    if is_dir_list(a) && is_dir_list(b) {
+        let names = |v: &[Sexp]| -> Vec<String> { v.iter().map(|d| d.args().first().and_then(|n| n.as_str()).unwrap_or("").to_string()).collect() };
+        let sorted = |v: &[Sexp]| -> Vec<String> {
+            let mut l: Vec<String> = v.iter().map(|d| d.to_line()).collect();
+            l.sort();
+            l
+        };
+        let o = owner.last().cloned().unwrap_or_else(|| "document".into());
+        if sorted(x) == sorted(y) {
+            // the same applications (also: repeated applications of ONE directive that changed places)
+            return Some((format!("directive-applications-reordered:{o}"), format!("expected @{} got @{}", names(x).join(" @"), names(y).join(" @"))));
+        }
+        if names(x) != names(y) {
+            return Some((format!("directive-applications-differ:{o}"), format!("expected @{} got @{}", names(x).join(" @"), names(y).join(" @"))));
+        }
+        // same names in the same order: an argument differs (judged below / by the string classes)
+    }
+    if head_of(a) != head_of(b) || x.len() != y.len() {
+        return None;
+    }
+    let h = head_of(a);
+    let pushed = match h.as_str() {
+        "typedef" | "typeext" => {
+            owner.push(x.get(1).and_then(|k| k.as_atom()).unwrap_or("type").to_string());
+            true
+        }
+        "fdef" | "ivdef" | "evdef" | "schemadef" | "schemaext" | "dirdef" => {
+            owner.push(h.clone());
+            true
+        }
+        _ => false,
+    };
+    let mut r = None;
+    for (p, q) in x.iter().zip(y.iter()) {
+        r = dir_list_diff(p, q, owner);
+        if r.is_some() {
+            break;
+        }
+    }
+    if pushed {
+        owner.pop();
+    }
+    r
+}
+
 fn str_leaves<'a>(s: &'a Sexp, out: &mut Vec<&'a str>) {
     match s {
         Sexp::Str(x) => out.push(x),
@@ -546,8 +603,13 @@ impl<'a> Ctx<'a> {
                     }
                     let mut path = vec![];
                     if let Some((p, leaves)) = diff_path(&j.expected, &got, &mut path) {
+                        let dir_class = if poisoned { None } else { dir_list_diff(&j.expected, &got, &mut vec![]) };
                         let (sig, detail) = match leaves {
                             _ if poisoned => (format!("{}:double-quote-not-escaped", j.stream_sig), format!("a string with a double quote is printed without escaping it; the text parses to a different document (first difference at {p})")),
+                            _ if dir_class.is_some() => {
+                                let (c, d) = dir_class.unwrap();
+                                (format!("{}:{c}", j.stream_sig), format!("the list of directive applications of a definition is not preserved in order ({c}: {d}; first difference at {p})"))
+                            }
                             Some((e, g)) => {
                                 let class = self.string_class(&e, Some(&g));
                                 (format!("{}:{}", j.stream_sig, class), format!("string {} came back as {} at {p}", show(&e), show(&g)))
@@ -665,7 +727,9 @@ impl<'a> Ctx<'a> {
             if strip_pos(&model_stripped) != strip_pos(&s.stripped) {
                 let mut p = vec![];
                 let d = diff_path(&strip_pos(&s.stripped), &strip_pos(&model_stripped), &mut p).map(|x| x.0).unwrap_or_default();
-                self.rep.fail("K", "strip", &format!("remove_builtins / plugin transform differs from the model at {d}"), s.case.clone());
+                // (model, code): "expected" = the model's ordered list
+                let dl = dir_list_diff(&strip_pos(&model_stripped), &strip_pos(&s.stripped), &mut vec![]).map(|(c, x)| format!(" ({c}: {x})")).unwrap_or_default();
+                self.rep.fail("K", "strip", &format!("remove_builtins / plugin transform differs from the model at {d}{dl}"), s.case.clone());
             }
             // K: module text
             let model_module = ok_str(&a[2]).unwrap_or_default();
@@ -859,6 +923,208 @@ fn decorate(rng: &mut Rng, schema: &mut SchemaModel, plugin: bool, unfaithful: b
     }
 }
 
+// ------------------------------------------------------------------------------------------------
+// the "several directive applications" family: every place of a type-system document where directives can stand
+// gets a LIST of applications (repeatable custom directives applied several times with different arguments, a
+// non-repeatable custom directive, `@specifiedBy` on scalars, `@deprecated` where it is legal) in a random order, with
+// the directive that the server module must lose (`@nitrogql_ts_type` on scalars, `@model` on objects / fields) at the
+// first / a middle / the last position; the lists of definitions are then cut between the definition and one or two
+// `extend …` items, which may live in a file of their own. Order of directive applications is significant (GraphQL
+// §3.13: "directives may be provided in a specific syntactic order which may have semantic significance").
+
+const DIRFAM_STEPS: [&str; 6] = ["trim", "parse", "lower", "a", "b", "c"];
+
+fn dirfam_defs(rng: &mut Rng, unfaithful: bool) -> Vec<TsItem> {
+    let ivd = |name: &str, ty: Ty| InputValueDef { desc: None, name: name.to_string(), pos: P::default(), ty, default: None, dirs: vec![] };
+    let mut locs = |rng: &mut Rng| {
+        let mut l: Vec<String> = TS_LOCATIONS.iter().map(|s| s.to_string()).collect();
+        if rng.coin() {
+            rng.shuffle(&mut l);
+        }
+        l
+    };
+    let mut defs = vec![
+        DirectiveDef { desc: None, name: "fmt".into(), name_pos: P::default(), args: vec![ivd("step", Ty::named("String")), ivd("n", Ty::named("Int"))], repeatable: true, locations: locs(rng), pos: P::default() },
+        DirectiveDef { desc: None, name: "key".into(), name_pos: P::default(), args: vec![ivd("fields", Ty::list(Ty::non_null(Ty::named("String"))))], repeatable: true, locations: locs(rng), pos: P::default() },
+        DirectiveDef { desc: None, name: "mark".into(), name_pos: P::default(), args: vec![ivd("label", Ty::named("String"))], repeatable: false, locations: locs(rng), pos: P::default() },
+    ];
+    for d in defs.iter_mut() {
+        if rng.chance(1, 4) {
+            d.desc = Some(hostile_text(rng, unfaithful));
+        }
+    }
+    defs.into_iter().map(TsItem::DirectiveDef).collect()
+}
+
+/// one more application that is legal at `loc` next to the applications named in `have`
+fn dirfam_app(rng: &mut Rng, loc: &str, have: &mut Vec<String>) -> Dir {
+    let s = |t: &str| Val::Str(t.to_string(), P::default());
+    loop {
+        match rng.below(6) {
+            0 | 1 => {
+                let mut args = vec![];
+                if !rng.chance(1, 6) {
+                    let step = if rng.chance(1, 8) { hostile_text(rng, false) } else { DIRFAM_STEPS[rng.below(DIRFAM_STEPS.len())].to_string() };
+                    args.push(Arg::new("step", s(&step)));
+                }
+                if rng.chance(1, 3) {
+                    args.push(Arg::new("n", Val::Int(rng.below(10).to_string(), P::default())));
+                }
+                if rng.chance(1, 6) {
+                    args.reverse();
+                }
+                return Dir::new("fmt", args);
+            }
+            2 => {
+                let n = rng.below(3);
+                let fields = (0..n).map(|i| s(["id", "a b", "x { y }"][i])).collect();
+                return Dir::new("key", if rng.chance(1, 5) { vec![] } else { vec![Arg::new("fields", Val::List(fields, P::default()))] });
+            }
+            3 if !have.iter().any(|h| h == "mark") => {
+                have.push("mark".into());
+                return Dir::new("mark", if rng.coin() { vec![Arg::new("label", s("m"))] } else { vec![] });
+            }
+            4 if loc == "SCALAR" && !have.iter().any(|h| h == "specifiedBy") => {
+                have.push("specifiedBy".into());
+                return Dir::new("specifiedBy", vec![Arg::new("url", s("https://example.com/spec"))]);
+            }
+            5 if ["FIELD_DEFINITION", "ARGUMENT_DEFINITION", "INPUT_FIELD_DEFINITION", "ENUM_VALUE"].contains(&loc) && !have.iter().any(|h| h == "deprecated") => {
+                have.push("deprecated".into());
+                return Dir::new("deprecated", if rng.coin() { vec![Arg::new("reason", s("use the other one"))] } else { vec![] });
+            }
+            _ => {}
+        }
+    }
+}
+
+/// turn `dirs` into a longer list in a random order; the applications named in `special` (the ones the server module
+/// must lose) go to the first / a middle / the last position
+fn dirfam_mix(rng: &mut Rng, dirs: &mut Vec<Dir>, loc: &str, special: &[&str], feats: &mut Vec<String>) {
+    let mut have: Vec<String> = dirs.iter().map(|d| d.name.clone()).collect();
+    let (sp, mut rest): (Vec<Dir>, Vec<Dir>) = std::mem::take(dirs).into_iter().partition(|d| special.contains(&d.name.as_str()));
+    let extra = if sp.is_empty() { rng.below(4) } else { 1 + rng.below(4) };
+    for _ in 0..extra {
+        rest.push(dirfam_app(rng, loc, &mut have));
+    }
+    rng.shuffle(&mut rest);
+    for d in sp {
+        let (at, place) = match rng.below(3) {
+            0 => (0, "first"),
+            1 => (rest.len() / 2, "middle"),
+            _ => (rest.len(), "last"),
+        };
+        feats.push(format!("dirlist:{}-position:{place}", d.name));
+        if rest.len() - at >= 2 {
+            feats.push(format!("dirlist:{}-followed-by-2-or-more", d.name));
+        }
+        rest.insert(at, d);
+    }
+    if rest.len() >= 3 {
+        feats.push(format!("dirlist:3-or-more-applications-on:{loc}"));
+    }
+    *dirs = rest;
+}
+
+fn dirfam_loc(k: TypeKind) -> &'static str {
+    match k {
+        TypeKind::Scalar => "SCALAR",
+        TypeKind::Object => "OBJECT",
+        TypeKind::Interface => "INTERFACE",
+        TypeKind::Union => "UNION",
+        TypeKind::Enum => "ENUM",
+        TypeKind::Input => "INPUT_OBJECT",
+    }
+}
+
+fn dirfam_decorate(rng: &mut Rng, schema: &mut SchemaModel, unfaithful: bool, feats: &mut Vec<String>) {
+    // names of the family's directives must be free (the shared generator uses `tag` and `auth`)
+    if schema.doc.items.iter().any(|i| matches!(i, TsItem::DirectiveDef(d) if ["fmt", "key", "mark"].contains(&d.name.as_str()))) {
+        return;
+    }
+    feats.push("dirlist:family".into());
+    const SPECIAL: [&str; 2] = ["nitrogql_ts_type", "model"];
+    for item in schema.doc.items.iter_mut() {
+        match item {
+            TsItem::TypeDef(t) => {
+                if t.kind == TypeKind::Scalar || rng.chance(1, 2) {
+                    dirfam_mix(rng, &mut t.dirs, dirfam_loc(t.kind), &SPECIAL, feats);
+                }
+                for f in t.fields.iter_mut() {
+                    if rng.chance(1, 4) || f.dirs.iter().any(|d| d.name == "model") {
+                        dirfam_mix(rng, &mut f.dirs, "FIELD_DEFINITION", &SPECIAL, feats);
+                    }
+                    for a in f.args.iter_mut() {
+                        if rng.chance(1, 6) {
+                            dirfam_mix(rng, &mut a.dirs, "ARGUMENT_DEFINITION", &SPECIAL, feats);
+                        }
+                    }
+                }
+                for v in t.values.iter_mut() {
+                    if rng.chance(1, 4) {
+                        dirfam_mix(rng, &mut v.dirs, "ENUM_VALUE", &SPECIAL, feats);
+                    }
+                }
+                for f in t.inputs.iter_mut() {
+                    if rng.chance(1, 4) {
+                        dirfam_mix(rng, &mut f.dirs, "INPUT_FIELD_DEFINITION", &SPECIAL, feats);
+                    }
+                }
+            }
+            TsItem::SchemaDef(s) => {
+                if rng.coin() {
+                    dirfam_mix(rng, &mut s.dirs, "SCHEMA", &SPECIAL, feats);
+                }
+            }
+            _ => {}
+        }
+    }
+    for d in dirfam_defs(rng, unfaithful) {
+        let at = rng.below(schema.doc.items.len() + 1);
+        schema.doc.items.insert(at, d);
+    }
+}
+
+/// cut directive lists of definitions between the definition and one or two `extend …` items (returned; the caller
+/// decides where they go). The merged list is the same.
+fn dirfam_split(rng: &mut Rng, doc: &mut TsDoc, feats: &mut Vec<String>) -> Vec<TsItem> {
+    let mut exts = vec![];
+    for item in doc.items.iter_mut() {
+        match item {
+            TsItem::TypeDef(t) if !t.dirs.is_empty() && rng.coin() => {
+                let mut ext = TypeDef::new(t.kind, &t.name);
+                if t.kind == TypeKind::Union {
+                    // `extend union U @d` without members is printed with a dangling `=` (open finding): keep clear of it
+                    if t.members.len() < 2 {
+                        continue;
+                    }
+                    ext.members = vec![t.members.pop().unwrap()];
+                }
+                let k = rng.below(t.dirs.len());
+                ext.dirs = t.dirs.split_off(k);
+                feats.push(format!("dirlist:split-definition/extension:{}", t.kind.as_str()));
+                if ext.dirs.len() >= 2 && t.kind != TypeKind::Union && rng.chance(1, 3) {
+                    let mut ext2 = TypeDef::new(t.kind, &t.name);
+                    let j = 1 + rng.below(ext.dirs.len() - 1);
+                    ext2.dirs = ext.dirs.split_off(j);
+                    exts.push(TsItem::TypeExt(ext));
+                    exts.push(TsItem::TypeExt(ext2));
+                    feats.push("dirlist:two-extensions-of-one-type".into());
+                } else {
+                    exts.push(TsItem::TypeExt(ext));
+                }
+            }
+            TsItem::SchemaDef(s) if !s.dirs.is_empty() && rng.coin() => {
+                let k = rng.below(s.dirs.len());
+                let ext = SchemaDef { desc: None, dirs: s.dirs.split_off(k), roots: vec![], pos: P::default() };
+                feats.push("dirlist:split-definition/extension:schema".into());
+                exts.push(TsItem::SchemaExt(ext));
+            }
+            _ => {}
+        }
+    }
+    exts
+}
+
 fn unquote(s: &mut String) {
     if s.contains('"') {
         *s = s.replace('"', "'");
@@ -965,6 +1231,10 @@ fn gen_schema_texts(rng: &mut Rng, plugin: bool, unfaithful: bool) -> (Vec<Strin
     let mut schema = gen_schema(rng, &cfg);
     let mut feats = vec![];
     decorate(rng, &mut schema, plugin, unfaithful, &mut feats);
+    let dirfam = rng.coin();
+    if dirfam {
+        dirfam_decorate(rng, &mut schema, unfaithful, &mut feats);
+    }
     if !rng.chance(1, 5) {
         unquote_tsdoc(&mut schema.doc);
     } else {
@@ -976,7 +1246,48 @@ fn gen_schema_texts(rng: &mut Rng, plugin: bool, unfaithful: bool) -> (Vec<Strin
     } else {
         schema.doc.clone()
     };
-    let texts = if rng.chance(1, 3) && doc.items.len() >= 2 {
+    // directive lists cut between definitions and extensions; the extensions go anywhere in the document, or into a
+    // file of their own that is read before / after the others
+    let mut own_file: Option<(bool, String)> = None;
+    if dirfam {
+        // the shared splitter moves the whole directive list of a one-member union into `extend union U @d…` without
+        // members, which the printer writes with a dangling `=` (open finding, kept in TS_CORPUS): give such an extension
+        // a member, or fold it back
+        let mut i = 0;
+        while i < doc.items.len() {
+            let memberless = matches!(&doc.items[i], TsItem::TypeExt(e) if e.kind == TypeKind::Union && e.members.is_empty());
+            if memberless {
+                let TsItem::TypeExt(mut ext) = doc.items.remove(i) else { unreachable!() };
+                let def = doc.items.iter_mut().find_map(|x| match x {
+                    TsItem::TypeDef(t) if t.name == ext.name => Some(t),
+                    _ => None,
+                });
+                match def {
+                    Some(t) if t.members.len() >= 2 => {
+                        ext.members.push(t.members.pop().unwrap());
+                        doc.items.insert(i, TsItem::TypeExt(ext));
+                        i += 1;
+                    }
+                    Some(t) => t.dirs.append(&mut ext.dirs),
+                    None => {}
+                }
+            } else {
+                i += 1;
+            }
+        }
+        let exts = dirfam_split(rng, &mut doc, &mut feats);
+        if !exts.is_empty() && rng.coin() {
+            feats.push("dirlist:extensions-in-own-file".into());
+            let mut d = TsDoc { items: exts };
+            own_file = Some((rng.coin(), render_tsdoc(&mut d, Style::canonical(), rng.fork()).0));
+        } else {
+            for e in exts {
+                let at = rng.below(doc.items.len() + 1);
+                doc.items.insert(at, e);
+            }
+        }
+    }
+    let mut texts = if rng.chance(1, 3) && doc.items.len() >= 2 {
         feats.push("two-schema-files".into());
         let k = 1 + rng.below(doc.items.len() - 1);
         let mut b = TsDoc { items: doc.items.split_off(k) };
@@ -986,6 +1297,11 @@ fn gen_schema_texts(rng: &mut Rng, plugin: bool, unfaithful: bool) -> (Vec<Strin
         let style = if rng.chance(1, 3) { Style::noisy() } else { Style::canonical() };
         vec![render_tsdoc(&mut doc, style, rng.fork()).0]
     };
+    match own_file {
+        Some((true, t)) => texts.insert(0, t),
+        Some((false, t)) => texts.push(t),
+        None => {}
+    }
     (texts, schema, feats)
 }
 
@@ -1005,6 +1321,27 @@ const TS_CORPUS: [&str; 14] = [
     "type T { f(a: String = \"\\u0001\\u007f\\b\\f\\t\\/\"): Int }\n",
     "\"ends with backslash\\\\\"\ntype T { \"a\\nb\\\\\" f: Int, \"a\\nb\\\"\" g: Int, \"\\n lead\" h: Int }\n",
 ];
+/// projects (schema files, model plugin) for the server-module streams: lists of several directive applications on every
+/// kind of definition, the directive the module must lose at the first / a middle / the last place, lists cut between a
+/// definition and its extensions (same file before / after, other file)
+const DIRS_SDL: &str = "directive @fmt(step: String, n: Int) repeatable on SCHEMA | SCALAR | OBJECT | FIELD_DEFINITION | ARGUMENT_DEFINITION | INTERFACE | UNION | ENUM | ENUM_VALUE | INPUT_OBJECT | INPUT_FIELD_DEFINITION\ndirective @mark(label: String) on SCHEMA | SCALAR | OBJECT | FIELD_DEFINITION | ARGUMENT_DEFINITION | INTERFACE | UNION | ENUM | ENUM_VALUE | INPUT_OBJECT | INPUT_FIELD_DEFINITION\n";
+const TS4: &str = "@nitrogql_ts_type(resolverInput: \"string\", resolverOutput: \"Date\", operationInput: \"string\", operationOutput: \"string\")";
+fn server_corpus() -> Vec<(Vec<String>, bool)> {
+    let q = "type Query { d: Date, j: JSON }\n";
+    vec![
+        // first / middle / last, one definition
+        (vec![format!("{DIRS_SDL}scalar Date {TS4} @specifiedBy(url: \"https://example.com/d\") @fmt(step: \"trim\") @fmt(step: \"parse\")\nscalar JSON @fmt(step: \"a\") @mark {TS4} @fmt(step: \"b\") @fmt(step: \"c\", n: 2)\n{q}")], false),
+        (vec![format!("{DIRS_SDL}scalar Date @fmt(step: \"a\") @fmt(step: \"b\") @mark(label: \"m\") {TS4}\nscalar JSON {TS4} @fmt(step: \"a\") @fmt(step: \"b\") @fmt(step: \"c\") @fmt(step: \"d\") @fmt(step: \"e\")\n{q}")], false),
+        // definition in one file, the rest of the list in extensions of another file (read after / before)
+        (vec![format!("{DIRS_SDL}scalar Date {TS4}\nscalar JSON @fmt(step: \"a\")\n{q}"), format!("extend scalar Date @fmt(step: \"a\") @fmt(step: \"b\")\nextend scalar JSON {TS4} @mark\nextend scalar JSON @fmt(step: \"b\") @fmt(step: \"c\")\n")], false),
+        (vec![format!("extend scalar Date @mark {TS4} @fmt(n: 1)\nextend scalar Date @fmt(n: 2) @specifiedBy(url: \"u\") @fmt(n: 3)\n"), format!("{DIRS_SDL}scalar Date @fmt(n: 0)\nscalar JSON\n{q}")], false),
+        // every other kind of definition, fields, arguments, enum values, input fields, the schema definition
+        (vec![format!("{DIRS_SDL}schema @fmt(step: \"a\") @mark @fmt(step: \"b\") {{ query: Query }}\nextend schema @fmt(step: \"c\") @fmt(step: \"d\")\nscalar Date\nscalar JSON\ninterface I @fmt(step: \"a\") @fmt(step: \"b\") @mark {{ d: Date }}\ntype Query implements I @fmt(step: \"x\") @mark @fmt(step: \"y\") @fmt(step: \"z\") {{ d: Date @deprecated @fmt(step: \"a\") @fmt(step: \"b\"), j(a: Int @fmt(n: 1) @deprecated(reason: \"r\") @fmt(n: 2) @mark): JSON @fmt(n: 1) @mark @fmt(n: 2) }}\nextend type Query @fmt(step: \"w\") @fmt(step: \"v\")\nunion U @fmt(n: 3) @fmt(n: 1) @fmt(n: 2) = Query\nenum E @mark @fmt(n: 1) @fmt(n: 2) {{ A @fmt(n: 2) @deprecated @fmt(n: 1), B }}\ninput In @fmt(n: 2) @fmt(n: 1) @mark {{ a: Int @fmt(n: 9) @mark @fmt(n: 8) }}\n")], false),
+        // the model plugin's directive on objects and fields, at every place
+        (vec![format!("{DIRS_SDL}scalar Date {TS4} @fmt(step: \"a\") @fmt(step: \"b\")\nscalar JSON\ntype Query {{ d: Date, j: JSON, u: User }}\ntype User @fmt(step: \"a\") @fmt(step: \"b\") @mark {{ id: ID @model @fmt(n: 1) @fmt(n: 2) @deprecated, name: String @fmt(n: 1) @model @fmt(n: 2) @fmt(n: 3), age: Int @fmt(n: 1) @fmt(n: 2) @model }}\ntype Post @fmt(step: \"a\") @model(type: \"M\") @mark @fmt(step: \"b\") @fmt(step: \"c\") {{ id: ID }}\ntype Head @model(type: \"H\") @fmt(n: 1) @fmt(n: 2) @mark {{ id: ID }}\n"), "extend type User @fmt(step: \"c\") @fmt(step: \"d\")\n".to_string()], true),
+    ]
+}
+
 const OP_CORPUS: [&str; 10] = [
     "query Q($a: Int = 1, $b: [String!] = [\"x\"] @d, $c: In = {k: \"v\"}) { f(a: $a) }\n",
     "query Q($a: Int @d(x: 1) @e) @live { f }\n",
@@ -1097,12 +1434,32 @@ fn main() {
     ctx.check_print_parse(DocKind::Ts, &TS_CORPUS.iter().map(|t| (t.to_string(), json!("corpus"))).collect::<Vec<_>>());
     ctx.check_print_parse(DocKind::Op, &OP_CORPUS.iter().map(|t| (t.to_string(), json!("corpus"))).collect::<Vec<_>>());
 
+    // ---- server modules: corpus of projects with lists of directive applications
+    let corpus = server_corpus();
+    let mut cli_cases = vec![];
+    {
+        let cases: Vec<(Vec<String>, bool, Value)> = corpus.iter().enumerate().map(|(i, (t, p))| (t.clone(), *p, json!({"corpus": format!("directive-lists-{i}")}))).collect();
+        let before = ctx.rep.evaluations;
+        ctx.check_server(&cases);
+        if ctx.rep.evaluations - before != cases.len() as u64 {
+            ctx.rep.notes.push("a project of the directive-list corpus was rejected by the real checker".into());
+            ctx.rep.count("server:corpus-project-rejected");
+        }
+        for (t, _, o) in &cases {
+            for f in t {
+                ctx.check_print_parse(DocKind::Ts, &[(f.clone(), o.clone())]);
+            }
+        }
+        // two of them through the real CLI too
+        cli_cases.push(cases[2].clone());
+        cli_cases.push(cases[5].clone());
+    }
+
     // ---- generated schemas: print-parse on the files, server module on the project
     let n_schemas = args.budget(150, 2500);
     let mut server_cases = vec![];
     let mut ts_texts = vec![];
     let mut op_texts = vec![];
-    let mut cli_cases = vec![];
     let n_cli = args.budget(4, 25);
     for i in 0..n_schemas {
         let plugin = rng.chance(1, 3);
@@ -1118,7 +1475,7 @@ fn main() {
         for t in &texts {
             ts_texts.push((t.clone(), origin.clone()));
         }
-        if cli_cases.len() < n_cli && i % 7 == 0 {
+        if cli_cases.len() < n_cli + 2 && i % 7 == 0 {
             cli_cases.push((texts.clone(), plugin, origin.clone()));
         }
         server_cases.push((texts, plugin, origin.clone()));
